@@ -233,18 +233,27 @@ Definition osp_ok (st : hstate) (T osp : Z) : bool :=
 Definition clamp_len (c : hconf) (n : Z) : Z :=
   let n1 := Z.max 1 n in if n1 >? c_max_len c then c_max_len c else n1.
 
-(* new_buffer_len = ceil(sp_seconds * max_age)                    when up-sampling   (sp > period)
-                  = ceil(period_seconds / sp_seconds * max_age)   when down-sampling
-   then max(1, .) and truncation to max_buffer_len.  [a]/[b] is the exact quotient; a float ceil may land on the
-   neighbouring integer only when the exact quotient is within 1e-9 (relative) of an integer. *)
+(* new_buffer_len = ceil(sp_seconds * max_age)                    when up-sampling   (sp > period, strictly)
+                  = ceil(period_seconds / sp_seconds * max_age)   otherwise (down-sampling AND sp = period)
+   then max(1, .) and truncation to max_buffer_len.  [len_quot] is the exact quotient a/b. *)
+Definition ceil_div (a b : Z) : Z := if a mod b =? 0 then a / b else a / b + 1.
+
+Definition len_quot (c : hconf) (osp : Z) : Z * Z :=
+  if osp >? c_period c
+  then (osp * c_age_n c, 1000000 * c_age_d c)
+  else (c_period c * c_age_n c, osp * c_age_d c).
+
+(* the documented capacity once the input period is known *)
+Definition doc_len (c : hconf) (osp : Z) : Z :=
+  clamp_len c (ceil_div (fst (len_quot c osp)) (snd (len_quot c osp))).
+
+(* what is accepted from the implementation: the documented capacity; a float ceil may land on the neighbouring
+   integer only when the exact quotient is within 1e-9 (relative) of an integer *)
 Definition olen_ok (c : hconf) (osp olen : Z) : bool :=
-  let '(a, b) := if osp >? c_period c
-                 then (osp * c_age_n c, 1000000 * c_age_d c)
-                 else (c_period c * c_age_n c, osp * c_age_d c) in
+  let '(a, b) := len_quot c osp in
   let fl := a / b in
   let fr := a mod b in
-  let raw := if fr =? 0 then fl else fl + 1 in
-  (olen =? clamp_len c raw) ||
+  (olen =? doc_len c osp) ||
   ((fr * 1000000000 <=? a) && (olen =? clamp_len c (if fr =? 0 then fl + 1 else fl))) ||
   (((b - fr) * 1000000000 <=? a) && (olen =? clamp_len c (fl + 2))).
 
